@@ -7,9 +7,11 @@ import (
 	"fmt"
 	"image"
 	"runtime/debug"
+	"strings"
 
 	"github.com/reactivego/ivg/decode"
 	"github.com/reactivego/ivg/encode"
+	"github.com/reactivego/ivg/raster/vec"
 	"github.com/reactivego/ivg/render"
 	"verif/mc"
 	"verif/rec"
@@ -24,13 +26,13 @@ func init() {
 		Level:            "fault_enumeration",
 		CrashIsViolation: true,
 		Rule: "engines B+F (same input space as C03: tiny strings, every opcode x width combination x truncation, sequences, metadata shapes incl. adversarial counts/lengths, non-finite operands, every prefix and single-byte substitution of corpus files). " +
-			"Every input goes through Decode into a recorder, a real Encoder, a real Renderer over a recording rasteriser (two rectangles), DecodeViewBox and Disassemble. Invariants: no panic, termination (watchdog), input unmodified, error is nil or DecodeError, " +
+			"Every input goes through Decode into a recorder, a real Encoder, a real Renderer over a recording rasteriser (two rectangles; the gradient inputs also over raster/vec onto pixels), DecodeViewBox and Disassemble; one 16 MiB run of selector opcodes goes through Decode into a counting destination. Invariants: no panic, termination (watchdog), input unmodified, error is nil or DecodeError, " +
 			"nothing delivered unless metadata valid, first call Reset, calls-1 <= bytes after metadata, <=4 segments per drawing op, <=2 other rasteriser calls per path op, prefix monotonicity (all prefixes for inputs <=48 bytes and all corpus prefixes). " +
 			"distinct = hash of (error, number of calls, call kinds); non-trivial = input is malformed (rejected) after delivering at least one call",
 		Assumptions: []string{"a case that makes no progress for 120 s is reported as non-termination", "hard process crashes (fatal error) are reported by the driver with the unit name"},
-		Units:       func(tier string) int { return len(genUnits(tier)) },
+		Units:       func(tier string) int { return len(genUnitsC02(tier)) },
 		Run: func(w *mc.W, u int) {
-			unit := genUnits(w.Tier)[u]
+			unit := genUnitsC02(w.Tier)[u]
 			st := newC02State()
 			var cur []byte
 			w.InFlight(func() string { return unit.Name + " " + hexShort(cur) })
@@ -50,7 +52,18 @@ func init() {
 				c02Check(w, newC02State(), b, "crash-replay") // dies again if the crash is real
 				return nil
 			}
-			return bytesReplay(func(w *mc.W, b []byte, unit string) { c02Check(w, newC02State(), b, unit) })(w, data)
+			return bytesReplay(func(w *mc.W, b []byte, unit string) {
+				if strings.HasPrefix(unit, "c02only/") {
+					// the case records only the head of a very long input: regenerate it
+					for _, x := range genUnitsC02("quick") {
+						if x.Name == unit {
+							x.Each(func(b []byte) bool { c02Check(w, newC02State(), b, unit); return true })
+						}
+					}
+					return
+				}
+				c02Check(w, newC02State(), b, unit)
+			})(w, data)
 		},
 		Post: postDistinct(100),
 	})
@@ -89,6 +102,20 @@ func guard(f func()) (pnc any, stack string) {
 }
 
 func c02Check(w *mc.W, st *c02State, b []byte, unit string) {
+	if len(b) > 1<<22 {
+		// a very long input: the work is linear in its length, in time, memory and stack depth
+		// (the calls are counted, not stored; a stack overflow kills the process and is
+		// attributed by the driver)
+		w.Eval()
+		cd := rec.Dest{CountOnly: true, NoPal: true}
+		err, pnc, stack := safeDecode(&cd, b)
+		if pnc != nil {
+			w.Fail("panic:decode/recorder:"+panicKey(stack), fmt.Sprintf("Decode of a %d-byte input panicked: %v", len(b), pnc), mkBytesCase(b[:64], unit))
+		} else if err != nil || cd.N != int64(len(b))-5+1 {
+			w.Fail("long-input", fmt.Sprintf("a %d-byte run of selector opcodes: err=%v, %d calls delivered", len(b), err, cd.N), mkBytesCase(b[:64], unit))
+		}
+		return
+	}
 	w.Eval()
 	st.copy = append(st.copy[:0], b...)
 	fail := func(key, what string) {
@@ -209,6 +236,16 @@ func c02Check(w *mc.W, st *c02State, b []byte, unit string) {
 		}
 	}
 	st.rdr.Next = nil
+
+	// (d) gradients are also painted: a Renderer over the bundled rasteriser onto 8x8 pixels
+	if unit == "gradient-stops" {
+		img := image.NewRGBA(image.Rect(0, 0, 8, 8))
+		var z render.Renderer
+		z.SetRasterizer(vec.NewRasterizer(img), img.Bounds())
+		if pnc, stack := guard(func() { decode.Decode(&z, b) }); pnc != nil {
+			fail("panic:decode/pixels:"+panicKey(stack), fmt.Sprintf("Decode into a Renderer over raster/vec panicked: %v", pnc))
+		}
+	}
 
 	// DecodeViewBox, Disassemble
 	if pnc, stack := guard(func() {
